@@ -1,0 +1,10 @@
+//go:build verif
+
+package protocol
+
+import "github.com/enfein/mieru/v3/pkg/protocol/serveruser"
+
+// Verification hook for property C05 (management events): read-only access to the
+// server user registry of a Mux, so that the harness can observe which users the
+// registry has compiled after SetServerUsers.
+func (m *Mux) VerifC05Registry() *serveruser.Registry { return &m.serverUsers }
